@@ -79,7 +79,8 @@ def gen_guard(rng, flags):
         return ["not", ["not", ["f", f]]]
     g = rng.choice(flags)
     if r < 0.82:
-        return ["and", ["f", f], ["f", g]]
+        # (a disjunction over the same operands now and then: 'a or b' next to 'a and b' are different guards)
+        return [rng.choice(["and", "and", "or"]), ["f", f], ["f", g]]
     if r < 0.9:
         return ["and", ["f", f], ["not", ["f", g]]]
     # three or four conjuncts: one n-ary LogicalAnd (what nested if_ blocks produce) or nested binary ones
@@ -137,6 +138,9 @@ def pym_guard(g):
         return Comparison(var(g[2]), g[1], g[3])
     if g[0] == "not":
         return LogicalNot(pym_guard(g[1]))
+    if g[0] == "or":
+        from pymbolic.primitives import LogicalOr
+        return LogicalOr(tuple(pym_guard(x) for x in g[1:]))
     return LogicalAnd(tuple(pym_guard(x) for x in g[1:]))
 
 
@@ -152,6 +156,8 @@ def ev_guard(g, val):
         return bool(op(val[g[2]], g[3]))
     if g[0] == "not":
         return not ev_guard(g[1], val)
+    if g[0] == "or":
+        return any(ev_guard(x, val) for x in g[1:])
     return all(ev_guard(x, val) for x in g[1:])
 
 
